@@ -115,6 +115,7 @@ class SolveSeam:
         self.setups = 0
         self.reused = 0
         self.amplitude = 0.0
+        self.traj = []  # per linear_solve entry: [|rhs|_2, copy of previous_solution or None, copy of the returned vector or None]
         self._matrix_full = None
         for n in ("linear_solve", "setup_direct_solver", "setup_amg_solver", "setup_cg_solver", "_solve"):
             if not hasattr(obj, n):
@@ -128,10 +129,21 @@ class SolveSeam:
             seam._matrix_full = matrix
             seam.note_amplitude(matrix, rhs, previous_solution)
             seam.note_conditioning(matrix)
+            try:
+                rec = [float(np.linalg.norm(np.asarray(rhs, dtype=float), 2)),
+                       None if previous_solution is None else np.array(previous_solution, dtype=float, copy=True), None]
+            except Exception:
+                rec = [float("nan"), None, None]
+            seam.traj.append(rec)
             seam.maybe_raise("entry")
             if reuse_solver and hasattr(obj, "linear_solver"):
                 seam.reused += 1
-            return orig_ls(matrix, rhs, previous_solution, reuse_solver)
+            ret = orig_ls(matrix, rhs, previous_solution, reuse_solver)
+            try:
+                rec[2] = np.array(ret[0], dtype=float, copy=True)
+            except Exception:
+                pass
+            return ret
         obj.linear_solve = linear_solve
 
         for nm in ("setup_direct_solver", "setup_amg_solver", "setup_cg_solver"):
@@ -203,6 +215,7 @@ class SolveSeam:
         self.bookkeeping_calls = 0
         self.anderson_calls = 0
         self.amplitude = 0.0
+        self.traj = []
         self.captured = None
 
     def note_amplitude(self, matrix, rhs, previous_solution):
@@ -625,6 +638,16 @@ def check_result(cfg, rr: RunResult, out: Outcome, tag: str, step: int, fault=No
         if conv and not reasons:
             out.violate("C04.S", f"converged-although:inner-solve-unconverged:{cfg['linear_solver']}", step, tag=tag,
                         worst_relative_residual=max(unconv), solver_tolerance=tol_own, config=cfg)
+    if conv and not reasons and completed:
+        # the same criteria, evaluated on the trajectory the harness recorded at the linear-solve seam instead of the
+        # library's own convergence history
+        met, why = trajectory_criteria(cfg, seam, sol, obj, ref, rhs, completed)
+        if met is None:
+            out.counters["probe:trajectory-not-reconstructible:" + why] += 1
+        else:
+            out.counters["probe:converged-runs-criteria-recomputed-from-trajectory"] += 1
+            if not met:
+                reasons.append("criteria-not-met-on-recorded-trajectory:" + why)
     for r in reasons[:1]:
         out.violate("C04.S", f"converged-although:{r}", step, tag=tag, converged=conv,
                     number_iterations=info["number_iterations"], completed_iterations=completed, fault=fault,
@@ -652,6 +675,52 @@ def check_result(cfg, rr: RunResult, out: Outcome, tag: str, step: int, fault=No
     if seam.entries > 3 * cfg["num_iter"] + 6:
         out.violate("C04.T", f"{cfg['method']}", step, tag=tag, solves=seam.entries, num_iter=cfg["num_iter"])
     return obs
+
+
+def trajectory_criteria(cfg, seam, sol, obj, ref, rhs_cells, completed):
+    """Stopping criteria of a run that reported convergence, recomputed from what passed the linear-solve seam (iterates
+    handed to / returned by the inner solves and the returned solution), not from info['convergence_history'].
+    Returns (True / False / None = cannot reconstruct, detail).  Slack 1e-9 relative: the quantities are the same floating
+    point expressions the library evaluates, so an honest run reproduces them to round-off."""
+    big = np.finfo(float).max
+    tr = cfg.get("tol_residual") if cfg.get("tol_residual") is not None else big
+    ti = cfg.get("tol_increment") if cfg.get("tol_increment") is not None else big
+    td = cfg.get("tol_distance") if cfg.get("tol_distance") is not None else big
+    nf = ref.num_faces
+    tj = seam.traj
+    slack = 1.0 + 1e-9
+    with np.errstate(all="ignore"):
+        if completed < 3:
+            return False, "fewer-than-three-iterations"
+        if cfg["method"] == "newton":
+            if len(tj) != completed + 1 or any(t[1] is None for t in tj[1:]):
+                return None, "newton-entry-count"
+            xs = [t[1] for t in tj[1:]] + [np.asarray(sol, dtype=float)]
+            res = [t[0] for t in tj[1:]]
+            finc = [float(np.linalg.norm(xs[i + 1][:nf] - xs[i][:nf], 2)) for i in range(completed)]
+            d_last = float(obj.l1_dissipation(xs[-1][:nf]))
+            d_prev = float(obj.l1_dissipation(xs[-2][:nf]))
+            if not res[-1] < np.float64(tr) * res[0] * slack:
+                return False, "residual"
+            if not finc[-1] < np.float64(ti) * finc[0] * slack:
+                return False, "flux-increment"
+            if not abs(d_last - d_prev) < np.float64(td) * slack + 1e-300:
+                return False, "distance-increment"
+            return True, ""
+        # Bregman: entry 0 = initial Darcy solve, entries 1..completed = relaxation steps, last entry = pressure recovery
+        if len(tj) != completed + 2 or any(t[2] is None for t in tj[:completed + 1]):
+            return None, "bregman-entry-count"
+        fl_last, fl_prev = tj[completed][2][:nf], tj[completed - 1][2][:nf]
+        if not np.array_equal(fl_last, np.asarray(sol, dtype=float)[:nf]):
+            return None, "bregman-returned-flux-is-not-last-relaxation-flux"
+        d_last, d_prev = float(obj.l1_dissipation(fl_last)), float(obj.l1_dissipation(fl_prev))
+        if not abs(d_last - d_prev) / d_last < np.float64(td) * slack:
+            return False, "distance-increment"
+        mref = float(np.linalg.norm(rhs_cells, 2))
+        mres = float(np.linalg.norm(ref.outflow(fl_last) - rhs_cells, 2)) / mref
+        if not mres < np.float64(tr) * slack + 1e-12:
+            return False, "mass-conservation-residual"
+        return True, ""
 
 
 def criteria_met(cfg, hist, dist) -> bool:
